@@ -37,6 +37,9 @@ PROP = [  # (subject fragment, property ids, key that used to be reported)
  ("--show-config and --version reported BrokenPipe as an error", 'C18', "c18:reader-gone:status-1 (delta --show-config / --version with a closed stdout: exit 1 and an error message)"),
  ("--help, --parse-ansi and --generate-completion failed loudly", 'C18', "c18:fault:status-1 (--help), c18:fault:crash:panic|delta::subcommands::parse_ansi::parse_ansi|failed printing to stdout, c18:fault:crash:panic|...generate_completion_file|Failed to write to generated file"),
  ("headers of sections without ---/+++ lines ignored --relative-paths", 'C19,C14', "c19:file-text / c19:file-target:file (mode-only / empty added / removed sections under --relative-paths + GIT_PREFIX: name not relativized, link to <root>/<prefix>/<name>)"),
+ ("ANSI iterator counted control characters inside an escape sequence as text", 'C03', "panic|delta::ansi::ansi_strings_iterator::{closure}|end byte index N is not a char boundary (via get_syntax_style_sections_for_lines, draw::write_boxed); panic|delta::ansi::parse_style_sections|end byte index N is not a char boundary"),
+ ("lines with invalid UTF-8 kept their escape sequences in the stripped copy", 'C03', "panic|...superimpose|String mismatch...|via:delta::handlers::hunk::*handle_hunk_line (word-diff) and via:delta::handlers::grep::*_emit_classic_format_code"),
+ ("grep line whose line number does not fit usize panicked", 'C03,C16', "panic|...superimpose|String mismatch...|via:delta::handlers::hunk_header::write_to_output_buffer ('rs:18446744073709551616:x'); panic|delta::handlers::grep::get_code_style_sections|start byte index N is not a char boundary"),
 ]
 log = subprocess.run(['git', '-C', '/repo', 'log', '--format=%H%x09%s', '--reverse'], stdout=subprocess.PIPE).stdout.decode().splitlines()
 fixes = [l.split('\t', 1) for l in log if '\tfix:' in l]
